@@ -37,6 +37,13 @@ def programs(tick, unit, kind='futures'):
                                              on_open={'sl': [[2, 2]], 'tp': [[1, 1], [1, 3]]},
                                              on_reduced={'sl': 'breakeven'}, cancel_entry=True)))
     if kind == 'futures':
+        P.append(('long-market-scaleout-at-market', dict(base, side='long', enter={'when': 'flat', 'legs': [[2, 0]]},
+                                                          on_open={'sl': [[2, 2]], 'tp': [[1, 0], [1, 2]]},
+                                                          on_reduced={'sl': 'all', 'sl_d': 0}, cancel_entry=True)))
+    else:
+        P.append(('long-market-scaleout-at-market', dict(base, side='long', enter={'when': 'flat', 'legs': [[2, 0]]},
+                                                          on_open={'tp': [[1, 0]]}, cancel_entry=True)))
+    if kind == 'futures':
         P.append(('short-limit-2leg', dict(base, side='short', enter={'when': 'flat', 'legs': [[1, 1], [1, 2]]},
                                             on_open={'sl': 'all', 'tp': 'all', 'sl_d': 2, 'tp_d': 2},
                                             on_increased={'sl': 'all', 'tp': 'all', 'sl_d': 2, 'tp_d': 2}, cancel_entry={'after': 2})))
